@@ -76,6 +76,18 @@ def pPool : Parser Nat
 def modifyCb (i : Nat) (p : P) : P :=
   p.mapIdx fun j c => if j = 0 then c + i.toFloat else if j = 1 then c + (2 * i).toFloat else c
 
+/-- the one runtime panic of the clean tree that the streams exercise on purpose (documented observation):
+    LaplacianSmooth on an EMPTY line loop with the attribute present — VertexNeighborTable indexes `m.indices[0]` -/
+def knownPanic (op : String) (ts : List String) : Bool :=
+  if op == "laplacian" then
+    match ts with
+    | name :: _ :: _ :: rest =>
+      match pMesh rest with
+      | some (m, _) => m.topology == .lineLoop && m.indices.isEmpty && m.hasAttr ⟨3, name⟩
+      | none => false
+    | _ => false
+  else false
+
 def applyOp (op : String) (ts : List String) : Option (Option (List MV)) :=
   match op with
   | "scan" => do
